@@ -12,6 +12,7 @@ static inline T *NAME##_back(const NAME *v) { return &v->ptr[v->len - 1]; } \
 static inline T *NAME##_front(const NAME *v) { return &v->ptr[0]; } \
 static inline void NAME##_push_back(NAME *v, T x) { __CPROVER_assert(v->len < v->cap, "vector model: room for one more element (ghost capacity)"); v->ptr[v->len] = x; v->len = v->len + 1; } \
 static inline void NAME##_pop_back(NAME *v) { v->len = v->len - 1; } \
+static inline void NAME##_pop_front(NAME *v) { __CPROVER_assert(v->len > 0, "pop_front of a non-empty queue"); v->ptr = v->ptr + 1; v->len = v->len - 1; v->cap = v->cap - 1; } \
 static inline void NAME##_clear(NAME *v) { v->len = 0; }
 #define VEC_OK(v, T) (__CPROVER_is_fresh((v).ptr, (v).cap * sizeof(T)) && (v).len <= (v).cap && (v).cap <= 4096)
 #endif
